@@ -1,5 +1,6 @@
 CONSTANTS
   MaxDev = 5
+  MinBrace = FALSE
   Mutate = FALSE
   Globals = "all"
 INIT Init
